@@ -292,7 +292,8 @@ func c28MetaArgs(res string, nas int, cid string, flag bool, csec, dcid, dcsec s
 }
 
 func c28Gen(g *Gen) {
-	r := g.Rng
+	// a well-mixed sub-stream: the framework's seeds are shifted copies of one splitmix stream
+	r := NewRng(g.Rng.U64())
 	n := g.N(10000, 200000)
 	for i := 0; i < n; i++ {
 		pEmpty := Pick(r, []int{20, 50, 50, 80})
